@@ -223,6 +223,10 @@ func runC13(r *run) {
 								Expected: fmt.Sprint(sorted(sel(sev))), Actual: obs})
 						}
 						admitsWarn := L == 8 || L >= 3
+						if !admitsWarn && len(recs) > 1 {
+							r.violate(violation{What: "a diagnostic warning was written although the logger's level does not admit warnings", Input: input,
+								Expected: "only the record itself", Actual: obs})
+						}
 						if failed && sev != 3 && admitsWarn {
 							if len(recs) != 2 {
 								r.violate(violation{What: "a failing record that is not a warning did not produce exactly one diagnostic on the logger's own destinations", Input: input,
